@@ -173,6 +173,18 @@ pub fn text(rng: &mut Rng) -> String {
         '>', '[', ']', ',', ':', '/', '?', '#', '@', '&', '=', ';', '(', ')', 'é', 'ü', '€', '中', 'ℵ', '\u{ffff}', '😀', '𝒳',
         '\u{10ffff}', 'a', 'Z', '0', '_', 'u', 'n', 'b', 'f',
     ];
+    if rng.chance(1, 24) {
+        // neighbours at the top of the BMP (compatibility ideographs, presentation forms, full-width forms, the
+        // private use area next to the surrogate block): two escapes `\uF9E1\uFF0C` in a row must stay two characters
+        let hi = ['\u{f9e1}', '\u{fb56}', '\u{fb01}', '\u{f8ff}', '\u{e000}', '\u{d7ff}'];
+        let lo = ['\u{ff0c}', '\u{fe8e}', '\u{ff43}', '\u{fffd}', '\u{fdd0}', '\u{fc00}'];
+        let mut t = String::new();
+        for _ in 0..1 + rng.below(3) {
+            t.push(*rng.pick(&hi));
+            t.push(*rng.pick(&lo));
+        }
+        return t;
+    }
     let n = match rng.below(10) {
         0 => 0,
         1..=6 => 1 + rng.below(6),
